@@ -38,45 +38,63 @@ Proof.
   rewrite A1 in A2. by injection A2.
 Qed.
 
+(** One row appended under the head of the free list (what create does once there is room). *)
+Lemma created_summary cfg s s1 iss vs h x : Inv s1 -> Hist s1 iss -> len s1 < cap s1 -> len s1 = len s -> (forall i, abs_at s1 i = abs_at s i) ->
+  length vs = length (cols s1) -> head s1 = Free h -> slots s1 !! h = Some x ->
+  Hist (created_state cfg s1 h x vs) (iss ++ [created_handle s1 h x]) /\ created_handle s1 h x ∉ iss /\
+  len (created_state cfg s1 h x vs) = S (len s) /\
+  (forall e r, has_row (created_state cfg s1 h x vs) e r <-> has_row s e r \/ (e = created_handle s1 h x /\ r = vs)).
+Proof.
+  intros HI1 HH1 Hlt Hlen Habs Hvs1 Hh Hx.
+  destruct (free_head_exists s1 HI1 Hlt) as (h0 & x0 & fl & Hh0 & Hx0 & Hxf & _).
+  rewrite Hh in Hh0. injection Hh0 as <-. rewrite Hx in Hx0. injection Hx0 as <-.
+  assert (Hhc : h < cap s1) by (rewrite <- (i_lslots s1 HI1); by eapply lookup_lt_Some).
+  split_and!; [by apply hist_created|by eapply created_fresh|cbn; lia|].
+  intros e r. split.
+  - intros (dd & Hdd & Ha). cbn [len created_state] in Hdd.
+    rewrite (created_abs cfg s1 h x vs dd HI1 Hvs1) in Ha by lia. case_decide as Hc.
+    + injection Ha as <- <-. by right.
+    + left. exists dd. split; [lia|]. by rewrite <- Habs.
+  - intros [(dd & Hdd & Ha)|[-> ->]].
+    + exists dd. split; [cbn; lia|]. rewrite (created_abs cfg s1 h x vs dd HI1 Hvs1) by lia.
+      rewrite decide_False by lia. by rewrite Habs.
+    + exists (len s1). split; [cbn; lia|]. rewrite (created_abs cfg s1 h x vs (len s1) HI1 Hvs1) by lia.
+      by rewrite decide_True.
+Qed.
+
 (** create, summarised: an invariant state whose rows are the old ones plus the new row, under a handle
     that was never issued for this storage; or the capacity-limit panic, which changes nothing. *)
 Lemma push_summary cfg s iss vs : Inv s -> Hist s iss -> length vs = length (cols s) ->
   match push cfg s vs with
-  | Ok s' h => Hist s' (iss ++ [h]) /\ h ∉ iss /\ len s' = S (len s) /\
+  | Ok s' h => Hist s' (iss ++ [h]) /\ h ∉ iss /\ len s' = S (len s) /\ (len s < cap s -> cap s' = cap s) /\
                (forall e r, has_row s' e r <-> has_row s e r \/ (e = h /\ r = vs))
   | Panic p s' => s' = s /\ p = PCapOverflow /\ (N.of_nat (len s) = MAX_DATA_CAPACITY)%N
   | UB => False
   end.
 Proof.
   intros HI HH Hvs. destruct (push_spec cfg s vs HI Hvs) as [Hout Hpost].
-  assert (Hcore : forall s1, Inv s1 -> Hist s1 iss -> len s1 < cap s1 -> len s1 = len s -> (forall i, abs_at s1 i = abs_at s i) ->
-     length vs = length (cols s1) ->
-     forall h x, head s1 = Free h -> slots s1 !! h = Some x ->
-     Hist (created_state cfg s1 h x vs) (iss ++ [created_handle s1 h x]) /\ created_handle s1 h x ∉ iss /\
-     len (created_state cfg s1 h x vs) = S (len s) /\
-     (forall e r, has_row (created_state cfg s1 h x vs) e r <-> has_row s e r \/ (e = created_handle s1 h x /\ r = vs))).
-  { intros s1 HI1 HH1 Hlt Hlen Habs Hvs1 h x Hh Hx.
-    destruct (free_head_exists s1 HI1 Hlt) as (h0 & x0 & fl & Hh0 & Hx0 & Hxf & _).
-    rewrite Hh in Hh0. injection Hh0 as <-. rewrite Hx in Hx0. injection Hx0 as <-.
-    assert (Hhc : h < cap s1) by (rewrite <- (i_lslots s1 HI1); by eapply lookup_lt_Some).
-    split_and!; [by apply hist_created|by eapply created_fresh|cbn; lia|].
-    intros e r. split.
-    - intros (dd & Hdd & Ha). cbn [len created_state] in Hdd.
-      rewrite (created_abs cfg s1 h x vs dd HI1 Hvs1) in Ha by lia. case_decide as Hc.
-      + injection Ha as <- <-. by right.
-      + left. exists dd. split; [lia|]. by rewrite <- Habs.
-    - intros [(dd & Hdd & Ha)|[-> ->]].
-      + exists dd. split; [cbn; lia|]. rewrite (created_abs cfg s1 h x vs dd HI1 Hvs1) by lia.
-        rewrite decide_False by lia. by rewrite Habs.
-      + exists (len s1). split; [cbn; lia|]. rewrite (created_abs cfg s1 h x vs (len s1) HI1 Hvs1) by lia.
-        by rewrite decide_True. }
   destruct Hout as [h x Hlt Hh Hx|n h x Hfull Hn Hnc Hneq Hh Hx|Hfull Hmax].
-  - by apply Hcore.
-  - apply Hcore; try done.
-    + by apply grown_inv.
-    + apply hist_grown; [done|done|lia].
-    + cbn. lia.
+  - destruct (created_summary cfg s s iss vs h x HI HH Hlt eq_refl ltac:(done) Hvs Hh Hx) as (A & B & C & D). done.
+  - assert (HIg : Inv (grown s n)) by (by apply grown_inv).
+    destruct (created_summary cfg s (grown s n) iss vs h x HIg ltac:(apply hist_grown; [done|done|lia]) ltac:(cbn; lia) eq_refl ltac:(done) Hvs Hh Hx) as (A & B & C & D).
+    split_and!; try done. intros Hlt. lia.
   - split_and!; [done|done|lia].
+Qed.
+
+(** create_within_capacity, summarised: it succeeds exactly when there is room, and then does what create does
+    without touching the capacity; otherwise it changes nothing. *)
+Lemma push_within_summary cfg s iss vs : Inv s -> Hist s iss -> length vs = length (cols s) ->
+  match push_within cfg s vs with
+  | Ok s' (Some h) => len s < cap s /\ Hist s' (iss ++ [h]) /\ h ∉ iss /\ len s' = S (len s) /\ cap s' = cap s /\
+                      (forall e r, has_row s' e r <-> has_row s e r \/ (e = h /\ r = vs))
+  | Ok s' None => s' = s /\ ~ len s < cap s
+  | Panic _ _ | UB => False
+  end.
+Proof.
+  intros HI HH Hvs. pose proof (push_within_spec cfg s vs HI Hvs) as Hp. case_decide as Hlt.
+  - destruct Hp as (h & x & -> & _ & Hcap & Hh & Hx).
+    destruct (created_summary cfg s s iss vs h x HI HH Hlt eq_refl ltac:(done) Hvs Hh Hx) as (A & B & C & D). done.
+  - rewrite Hp. done.
 Qed.
 
 (** destroy with a key of this archetype, summarised (no wrapping_version). *)
@@ -211,6 +229,7 @@ Record ARel (s : storage) (x : sarch) (iss : list handle) : Prop := {
   a_nodup : NoDup (handles_of (sa_live x));
   a_len : length (sa_live x) = len s;
   a_hist : Hist s (iss_of (aid s) iss);
+  a_cap : sa_cap_exact x = true -> sa_cap x = cap s;
 }.
 
 Record Rel (d : wdecl) (st : rstate) (sst : sstate) : Prop := {
@@ -279,7 +298,7 @@ Qed.
 
 Definition l0_op (d : wdecl) (o : op) : bool :=
   match o with
-  | OCreate _ _ => true
+  | OCreate _ _ | OCreateW _ _ => true
   | ODestroy (LArch b) KEnt TAny (RIssued _) | OProbe (LArch b) KEnt TAny (RIssued _) => b <? length (wd_archs d)
   | OProbe LWorld KEnt TAny (RIssued _) | ODestroy LWorld KEnt TAny (RIssued _) => true
   | _ => false
@@ -349,7 +368,7 @@ Proof.
   cbn [step] in Hinv |- *. rewrite Hcw, Had, Hs in Hinv |- *. fold vs in Hinv |- *.
   destruct (push cfg s vs) as [s' h|p s'|] eqn:Hpush; [| |done].
   - (* created *)
-    destruct Hp as (HH' & Hfresh & Hlen' & Hrows).
+    destruct Hp as (HH' & Hfresh & Hlen' & Hcapf & Hrows).
     cbn [ret] in Hinv.
     set (st' := add_issued (set_world st (upd w a s')) h) in *.
     assert (Hw' : worlds st' = [Some (upd w a s')]) by (cbn; by rewrite Hw, Hc0).
@@ -397,10 +416,12 @@ Proof.
            ++ cbn [x' sarch_add sa_live]. rewrite app_length. cbn [length]. rewrite (a_len _ _ _ HA). lia.
            ++ cbn [st' add_issued issued set_world]. rewrite iss_of_app, iss_of_one, decide_True by congruence.
               assert (aid s' = aid s) as -> by congruence. done.
+           ++ cbn [x' sarch_add sa_cap sa_cap_exact]. rewrite negb_involutive. intros Hex. apply andb_true_iff in Hex as [Hex Hng].
+              apply Nat.ltb_lt in Hng. rewrite (a_len _ _ _ HA), (a_cap _ _ _ HA Hex) in Hng. rewrite (a_cap _ _ _ HA Hex). symmetry. by apply Hcapf.
         -- destruct (Harch a2 ad2 Had2) as (s2 & x2 & Hs2 & Hx2 & HA2 & (HI2 & Haid2 & _)).
            exists s2, x2. unfold upd.
            split_and!; [etrans; [apply list_lookup_insert_ne; congruence|exact Hs2]|etrans; [apply list_lookup_insert_ne; congruence|exact Hx2]|].
-           destruct HA2 as [A1 A2 A3 A4 A5 A6]. constructor; try done.
+           destruct HA2 as [A1 A2 A3 A4 A5 A6 A7]. constructor; try done.
            cbn [st' add_issued issued set_world]. rewrite iss_of_app, iss_of_one, decide_False, app_nil_r; [done|].
            rewrite Hhid2, Haid2. intros E. apply Hne. eapply NoDup_lookup; [exact Hnd| |].
            ++ rewrite list_lookup_fmap, Had2. done.
@@ -418,6 +439,107 @@ Proof.
     exists st', [2%N; pcode PCapOverflow], sst. split_and!; [done|done| |].
     + cbn [spec_step pcode]. rewrite Hcsw, Had, Hx. rewrite (a_len _ _ _ HA), Hmax.
       by rewrite N.ltb_irrefl.
+    + assert (Hupd : upd w a s = w) by (unfold upd; by apply list_insert_id).
+      constructor; try done.
+      * exists w, sw. split_and!; [cbn; by rewrite Hw, Hc0, Hupd|done|].
+        intros a2 ad2 Had2. destruct (Harch a2 ad2 Had2) as (s2 & x2 & ? & ? & ? & _). by exists s2, x2.
+      * apply (r_ids _ _ _ HR).
+Qed.
+
+Lemma rel_step_createw cfg d qs st sst a v : wrapping cfg = false -> wf_decl d -> NoDup (da_id <$> wd_archs d) -> Rel d st sst ->
+  exists st' obs sst', step cfg d qs st (OCreateW a v) = Some (st', obs) /\ obs <> [254%N] /\
+    spec_step cfg d qs sst (OCreateW a v) obs = inr sst' /\ Rel d st' sst'.
+Proof.
+  intros Hwr Hwf Hnd HR. destruct (rel_cur d st sst HR) as (w & sw & Hw & Hsw & Hcw & Hcsw & HWI & Harch).
+  destruct (r_cur _ _ _ HR) as [Hc0 Hsc0]. destruct (r_iss _ _ _ HR) as [Hfi Hwi].
+  pose proof (step_inv cfg d qs st (OCreateW a v) Hwf I (r_inv _ _ _ HR)) as Hinv.
+  destruct (wd_archs d !! a) as [ad|] eqn:Had.
+  2: { exists st, [8%N], sst. split_and!; [|done|by cbn [spec_step]; rewrite Hcsw, Had|done].
+       cbn [step]. by rewrite Hcw, Had. }
+  destruct (Harch a ad Had) as (s & x & Hs & Hx & HA & (HI & Haid & Hcols)).
+  set (vs := row_values d ad v).
+  assert (Hvs : length vs = length (cols s)) by (rewrite Hcols; apply row_values_length).
+  pose proof (push_within_summary cfg s (iss_of (aid s) (issued st)) vs HI (a_hist _ _ _ HA) Hvs) as Hp.
+  cbn [step] in Hinv |- *. rewrite Hcw, Had, Hs in Hinv |- *. fold vs in Hinv |- *.
+  destruct (push_within cfg s vs) as [s' [h|]|p s'|] eqn:Hpush; [| |done|done].
+  - (* created *)
+    destruct Hp as (Hlt & HH' & Hfresh & Hlen' & Hcap' & Hrows). assert (Hcapf : len s < cap s -> cap s' = cap s) by done.
+    cbn [ret] in Hinv.
+    set (st' := add_issued (set_world st (upd w a s')) h) in *.
+    assert (Hw' : worlds st' = [Some (upd w a s')]) by (cbn; by rewrite Hw, Hc0).
+    assert (HS' : SInv ad s').
+    { assert (HWI' : WInv d (upd w a s')) by (eapply (RInv_cur d st'); [done|unfold cur_world; cbn; by rewrite Hw, Hc0]).
+      destruct (Forall2_lookup_l _ _ _ _ _ HWI' Had) as (s2 & Hs2 & HS2).
+      assert (Hup : upd w a s' !! a = Some s') by (unfold upd; apply list_lookup_insert; by eapply lookup_lt_Some).
+      by assert (Some s2 = Some s') as [= ->] by (etrans; [symmetry; exact Hs2|exact Hup]). }
+    destruct HS' as (HI' & Haid' & Hcols').
+    assert (Hhin : h ∈ ents s') by (eapply has_row_ents, Hrows; by right).
+    destruct (stored_handle_facts s' h HI' Hhin) as [Hhid Hhv].
+    assert (Hhid2 : key_arch_id (fst h) = da_id ad) by congruence.
+    assert (Hnew : h ∉ issued st).
+    { intros Hin. apply Hfresh. apply elem_of_list_filter. split; [congruence|done]. }
+    set (x' := sarch_add x h vs).
+    set (sst' := SS (<[0 := Some (<[a := x']> sw)]> (s_worlds sst)) [issued st ++ [h]] 0 (s_issued sst ++ [(h, a)]) (s_directs sst)
+                    (s_inexact sst) (s_presets sst) (s_clone_armed sst) (s_drop_armed sst)).
+    exists st', (1%N :: o_handle h), sst'. split_and!; [done|done| |].
+    + cbn [spec_step o_handle]. rewrite Hcsw, Had, Hx. rewrite Hhid2, N.eqb_refl. cbn [negb]. rewrite Hwr. cbn [andb negb].
+      rewrite Hsc0, Hwi. cbn [lookup list_lookup default from_option id]. replace (h.1, h.2) with h by (by destruct h).
+      rewrite (count_h_zero h (issued st) Hnew). cbn [Nat.ltb Nat.leb].
+      assert (Hw0 : (sa_cap_exact x && negb (length (sa_live x) <? sa_cap x)) = false).
+      { destruct (sa_cap_exact x) eqn:Hex; [|done]. rewrite (a_cap _ _ _ HA Hex), (a_len _ _ _ HA). cbn [andb]. apply negb_false_iff, Nat.ltb_lt. done. }
+      change (match sa_cap x with 0 => false | S m' => length (sa_live x) <=? m' end) with (length (sa_live x) <? sa_cap x).
+      rewrite Hw0.
+      unfold sst', x', vs, row_vals, set_sarch, set_sworld.
+      cbn [s_worlds s_wissued s_cur s_issued s_directs s_inexact s_presets s_clone_armed s_drop_armed].
+      rewrite Hsc0, Hwi. reflexivity.
+    + assert (Hxb2 : find_sent h (sa_live x) = None).
+      { apply (a_b2 _ _ _ HA). intros Hin. apply Hfresh. apply elem_of_list_lookup in Hin as [k Hk].
+        exact (h_stored _ _ (a_hist _ _ _ HA) k h Hk). }
+      constructor; try done.
+      * exists (upd w a s'), (<[a := x']> sw). split_and!; [done|cbn; by rewrite Hsw| ].
+        intros a2 ad2 Had2. destruct (decide (a2 = a)) as [->|Hne].
+        -- rewrite Had in Had2. injection Had2 as <-. exists s', x'. unfold upd.
+           split_and!; [apply list_lookup_insert; by eapply lookup_lt_Some|apply list_lookup_insert; by eapply lookup_lt_Some|].
+           constructor.
+           ++ apply (a_sync _ _ _ HA).
+           ++ intros e r Hr. cbn [x' sarch_add sa_live]. rewrite find_sent_snoc. apply Hrows in Hr as [Hr|[-> ->]].
+              ** by rewrite (a_b1 _ _ _ HA e r Hr).
+              ** rewrite Hxb2. cbn [se_h]. by rewrite decide_True.
+           ++ intros e He. cbn [x' sarch_add sa_live]. rewrite find_sent_snoc.
+              assert (He0 : e ∉ ents s).
+              { intros Hin. destruct (ents_has_row s e HI Hin) as [r Hr]. apply He. eapply has_row_ents, Hrows. by left. }
+              rewrite (a_b2 _ _ _ HA e He0). cbn [se_h]. rewrite decide_False; [done|]. by intros ->.
+           ++ cbn [x' sarch_add sa_live]. unfold handles_of. rewrite fmap_app. cbn [fmap list_fmap se_h].
+              apply NoDup_app. split_and!; [apply (a_nodup _ _ _ HA)| |apply NoDup_singleton].
+              intros y Hy Hy2. apply elem_of_list_singleton in Hy2 as ->. by apply (find_sent_none h (sa_live x)).
+           ++ cbn [x' sarch_add sa_live]. rewrite app_length. cbn [length]. rewrite (a_len _ _ _ HA). lia.
+           ++ cbn [st' add_issued issued set_world]. rewrite iss_of_app, iss_of_one, decide_True by congruence.
+              assert (aid s' = aid s) as -> by congruence. done.
+           ++ cbn [x' sarch_add sa_cap sa_cap_exact]. rewrite negb_involutive. intros Hex. apply andb_true_iff in Hex as [Hex Hng].
+              apply Nat.ltb_lt in Hng. rewrite (a_len _ _ _ HA), (a_cap _ _ _ HA Hex) in Hng. rewrite (a_cap _ _ _ HA Hex). symmetry. by apply Hcapf.
+        -- destruct (Harch a2 ad2 Had2) as (s2 & x2 & Hs2 & Hx2 & HA2 & (HI2 & Haid2 & _)).
+           exists s2, x2. unfold upd.
+           split_and!; [etrans; [apply list_lookup_insert_ne; congruence|exact Hs2]|etrans; [apply list_lookup_insert_ne; congruence|exact Hx2]|].
+           destruct HA2 as [A1 A2 A3 A4 A5 A6 A7]. constructor; try done.
+           cbn [st' add_issued issued set_world]. rewrite iss_of_app, iss_of_one, decide_False, app_nil_r; [done|].
+           rewrite Hhid2, Haid2. intros E. apply Hne. eapply NoDup_lookup; [exact Hnd| |].
+           ++ rewrite list_lookup_fmap, Had2. done.
+           ++ rewrite list_lookup_fmap, Had. cbn. by rewrite E.
+      * cbn. rewrite fmap_app. cbn. by rewrite Hfi.
+      * intros e He. cbn [st' add_issued issued set_world] in He. apply elem_of_app in He as [He|He].
+        -- apply (r_ids _ _ _ HR e He).
+        -- apply elem_of_list_singleton in He as ->. split; [done|]. by exists a, ad.
+      * apply (r_drop _ _ _ HR).
+  - (* refused: no room *)
+    destruct Hp as (-> & Hnlt).
+    unfold after_drop in Hinv |- *. cbn [drop_in set_world] in Hinv |- *. rewrite (r_drop _ _ _ HR) in Hinv |- *.
+    cbn [drop_row N.eqb ret] in Hinv |- *.
+    set (st' := set_drop_in (set_world st (upd w a s)) 0%N) in *.
+    exists st', (4%N :: vs), sst. split_and!; [done|done| |].
+    + cbn [spec_step]. rewrite Hcsw, Had, Hx. cbn [negb].
+      assert (Hw0 : (sa_cap_exact x && (length (sa_live x) <? sa_cap x)) = false).
+      { destruct (sa_cap_exact x) eqn:Hex; [|done]. rewrite (a_cap _ _ _ HA Hex), (a_len _ _ _ HA). cbn [andb]. apply Nat.ltb_ge. lia. }
+      rewrite Hw0. unfold lNeqb, row_vals. fold vs. by rewrite bool_decide_eq_true_2.
     + assert (Hupd : upd w a s = w) by (unfold upd; by apply list_insert_id).
       constructor; try done.
       * exists w, sw. split_and!; [cbn; by rewrite Hw, Hc0, Hupd|done|].
@@ -524,6 +646,7 @@ Proof.
               ** unfold handles_of. rewrite fmap_length, (a_len _ _ _ HA). lia.
               ** destruct (decide (e ∈ handles_of (sa_live x))) as [|Hn]; [done|]. apply find_sent_none in Hn. congruence.
            ++ cbn [st' set_drop_in set_world issued]. assert (aid s' = aid s) as -> by congruence. done.
+           ++ cbn [sarch_remove sa_cap sa_cap_exact]. intros Hex. rewrite (a_cap _ _ _ HA Hex). congruence.
         -- destruct (Harch a2 ad2 Had2) as (s2 & x2 & Hs2 & Hx2 & HA2 & _).
            exists s2, x2. unfold upd.
            split_and!; [etrans; [apply list_lookup_insert_ne; congruence|exact Hs2]|etrans; [apply list_lookup_insert_ne; congruence|exact Hx2]|done].
@@ -635,6 +758,7 @@ Proof.
               ** unfold handles_of. rewrite fmap_length, (a_len _ _ _ HA). lia.
               ** destruct (decide (e ∈ handles_of (sa_live x))) as [|Hn]; [done|]. apply find_sent_none in Hn. congruence.
            ++ cbn [st' set_drop_in set_world issued]. assert (aid s' = aid s) as -> by congruence. done.
+           ++ cbn [sarch_remove sa_cap sa_cap_exact]. intros Hex. rewrite (a_cap _ _ _ HA Hex). congruence.
         -- destruct (Harch a2 ad2 Had2) as (s2 & x2 & Hs2 & Hx2 & HA2 & _).
            exists s2, x2. unfold upd.
            split_and!; [etrans; [apply list_lookup_insert_ne; congruence|exact Hs2]|etrans; [apply list_lookup_insert_ne; congruence|exact Hx2]|done].
@@ -663,14 +787,15 @@ Qed.
 
 (* ---------------------------------------------------------------- the initial world and whole histories *)
 
-Lemma new_world_fresh archs : forall caps w a s, new_world archs caps = Ok w tt -> w !! a = Some s -> len s = 0.
+Lemma new_world_fresh archs : forall caps w a s c, new_world archs caps = Ok w tt -> w !! a = Some s -> caps !! a = Some c ->
+  len s = 0 /\ cap s = c.
 Proof.
-  induction archs as [|ad ar IH]; intros caps w a s.
+  induction archs as [|ad ar IH]; intros caps w a s c.
   { destruct caps; cbn [new_world]; intros [= <-] Hl; by destruct a. }
-  destruct caps as [|c cr]; cbn [new_world]; [intros [= <-] Hl; by destruct a|].
-  unfold with_capacity. destruct (with_capacity_panics (N.of_nat c)); [done|].
+  destruct caps as [|c0 cr]; cbn [new_world]; [intros [= <-] Hl; by destruct a|].
+  unfold with_capacity. destruct (with_capacity_panics (N.of_nat c0)); [done|].
   destruct (new_world ar cr) as [w' []|p w'|] eqn:Hn; [|done|done]. intros [= <-]. destruct a as [|a]; cbn.
-  - by intros [= <-].
+  - by intros [= <-] [= <-].
   - by apply (IH cr w').
 Qed.
 
@@ -691,7 +816,7 @@ Proof.
     assert (Ha : a < length caps) by (rewrite Hlen; by eapply lookup_lt_Some).
     destruct (lookup_lt_is_Some_2 _ _ Ha) as [c Hc].
     exists s, (SA [] c true 0 0 [] [] true true). split_and!; [done|etrans; [apply list_lookup_fmap|by rewrite Hc]|].
-    pose proof (new_world_fresh _ _ _ _ _ Hnw Hs) as Hl0.
+    destruct (new_world_fresh _ _ _ _ _ c Hnw Hs Hc) as [Hl0 Hc0].
     constructor; cbn; try done.
     + intros e r (dd & Hdd & _). lia.
     + constructor.
@@ -705,8 +830,9 @@ Lemma rel_step cfg d qs st sst o : wrapping cfg = false -> wf_decl d -> NoDup (d
   exists st' obs sst', step cfg d qs st o = Some (st', obs) /\ obs <> [254%N] /\
     spec_step cfg d qs sst o obs = inr sst' /\ Rel d st' sst'.
 Proof.
-  intros Hwr Hwf Hnd HR Hl0. destruct o as [| | | |a v| |l k t r|l k t r| | | | | | | | | | | | | | |]; try done.
+  intros Hwr Hwf Hnd HR Hl0. destruct o as [| | | |a v|a v|l k t r|l k t r| | | | | | | | | | | | | | |]; try done.
   - by apply rel_step_create.
+  - by apply rel_step_createw.
   - destruct k; [|by destruct l]. destruct t; try (by destruct l). destruct r as [i| |]; try (by destruct l).
     destruct l as [|b]; [by apply rel_step_destroy_world|by apply rel_step_destroy].
   - destruct k; [|by destruct l]. destruct t; try (by destruct l). destruct r as [i| |]; try (by destruct l).
